@@ -663,7 +663,8 @@ class Scheduler:
         cost = copy.copy(ref_cost)
         cost.slack_buffering_cycles = ref_cost.cycles.op_cycles
         memory_snapshot = ref_schedule.memory_snapshot
-        ref_memory_usage = memory_snapshot[ref_cost.time_index] if ref_cost.time_index < len(memory_snapshot) else 0
+        # The snapshot holds NumPy fixed-width values; the staging limit is a Python int that need not fit that type
+        ref_memory_usage = int(memory_snapshot[ref_cost.time_index]) if ref_cost.time_index < len(memory_snapshot) else 0
         cost.slack_buffering_memory = staging_limit_bytes - ref_memory_usage
         buffered_schedule.cost_map[sched_op] = cost
 
